@@ -305,6 +305,7 @@ if (raised is not None or keep) and not (src.exists() and np.array_equal(np.from
 if raised is None:
     if not cb.exists(): bad.append('no cbin after normal return')
     if not keep and (src.exists() or str(sr.file_bin) != str(cb)): bad.append('source kept / reader not repointed')
+    if (d / 'x.imec0.ap.cbin_tmp').exists(): bad.append('temporary file left behind')
 print('raised', raised, sorted(p.name for p in d.iterdir()), bad)
 if bad: reproduced(str(bad))
 not_reproduced()
